@@ -500,3 +500,512 @@ Proof.
       symmetry. cbn [existsb negb]. induction (seqN 0 (N.to_nat phys)) as [|a l IHl]; cbn [filter]; congruence.
     + cbn [sorted_in]. lia.
 Qed.
+(* ------------------------------------------------------------------ plan_scan *)
+Lemma filter_filter {A} (p q : A -> bool) l : filter p (filter q l) = filter (fun x => q x && p x) l.
+Proof.
+  induction l as [|a l IH]; cbn [filter]; [reflexivity|]. destruct (q a); cbn [filter andb]; [|exact IH].
+  destruct (p a); rewrite IH; reflexivity.
+Qed.
+
+Lemma filter_nil_iff {A} (p : A -> bool) l : filter p l = [] <-> forall x, In x l -> p x = false.
+Proof.
+  induction l as [|a l IH]; cbn [filter In]; [tauto|]. destruct (p a) eqn:E.
+  - split; [discriminate|]. intros H. specialize (H a (or_introl eq_refl)). congruence.
+  - rewrite IH. split; [intros H x [->|Hx]; auto | intros H x Hx; auto].
+Qed.
+
+Section PlanSound.
+  Variable o : opts.
+  Variables refine_p full_p indexed_p : rowpred.
+
+  Definition frag_rows (f : frag) : N := if o_with_deleted o then f_phys f else f_logical f.
+  Definition live (f : frag) : list N := live_of (f_phys f) (f_dv f).
+  Definition refine_eff : rowpred := if o_has_refine o then refine_p else (fun _ _ => true).
+
+  Lemma live_offsets_eq f : live_offsets o f = live f.
+  Proof. reflexivity. Qed.
+
+  Definition wf_frag (f : frag) : Prop :=
+    match f_dv f with Some d => dv_ok (f_phys f) d | None => True end
+    /\ frag_rows f = lenN (live f)
+    /\ f_phys f < two64
+    /\ match f_matched f with Some m => exists lo hi, sorted_in lo hi m | None => True end.
+
+  (* what the index result promises about fragment number i (C21: Exact = the truth of the indexed
+     part, AtMost a superset, AtLeast a subset), on rows that exist; and full = indexed AND refine *)
+  Definition guarantee (i : nat) (f : frag) : Prop :=
+    match o_index o, f_matched f with
+    | Some k, Some m =>
+        forall off, In off (live f) ->
+          full_p i off = indexed_p i off && refine_eff i off
+          /\ match k with
+             | Exact => in_ranges off m = indexed_p i off
+             | AtMost => indexed_p i off = true -> in_ranges off m = true
+             | AtLeast => in_ranges off m = true -> indexed_p i off = true
+             end
+    | _, _ => True
+    end.
+
+  Fixpoint wf_frags (i : nat) (frs : list frag) : Prop :=
+    match frs with [] => True | f :: tl => wf_frag f /\ guarantee i f /\ wf_frags (S i) tl end.
+
+  Fixpoint total_rows (frs : list frag) : N :=
+    match frs with [] => 0 | f :: tl => frag_rows f + total_rows tl end.
+
+  (* rows of fragment f inside the before-filter range when the fragment starts at position off *)
+  Definition t_spec (off : N) (f : frag) : list N :=
+    match o_before o with
+    | Some (bs, be) => winT (N.to_nat (bs - off)) (N.to_nat (be - off) - N.to_nat (bs - off)) (live f)
+    | None => live f
+    end.
+
+  Fixpoint rows_spec (i : nat) (off : N) (frs : list frag) : list row :=
+    match frs with
+    | [] => []
+    | f :: tl => map (pair i) (t_spec off f) ++ rows_spec (S i) (off + frag_rows f) tl
+    end.
+
+  Definition fullr (r : row) : bool := full_p (fst r) (snd r).
+
+  Lemma filter_map_pair i (p : rowpred) l :
+    filter (fun r : row => p (fst r) (snd r)) (map (pair i) l) = map (pair i) (filter (p i) l).
+  Proof. induction l as [|a l IH]; cbn [map filter fst snd]; [reflexivity|]. destruct (p i a); cbn [map]; rewrite IH; reflexivity. Qed.
+
+  Lemma rows_spec_before i off frs bs be :
+    o_before o = Some (bs, be) -> (forall f, In f frs -> frag_rows f = lenN (live f)) ->
+    rows_spec i off frs = winT (N.to_nat (bs - off)) (N.to_nat (be - off) - N.to_nat (bs - off)) (all_rows o i frs).
+  Proof.
+    intros Hb. revert i off. induction frs as [|f tl IH]; intros i off Hl; cbn [rows_spec all_rows].
+    - rewrite winT_nil. reflexivity.
+    - rewrite winT_app, winT_map, live_offsets_eq. unfold t_spec at 1. rewrite Hb. f_equal.
+      rewrite IH by (intros; apply Hl; right; assumption).
+      pose proof (Hl f (or_introl eq_refl)) as E. unfold lenN in E.
+      rewrite !map_length, winT_length. f_equal; lia.
+  Qed.
+
+  Lemma rows_spec_nobefore i off frs : o_before o = None -> rows_spec i off frs = all_rows o i frs.
+  Proof.
+    intros Hb. revert i off. induction frs as [|f tl IH]; intros i off; cbn [rows_spec all_rows]; [reflexivity|].
+    rewrite IH. unfold t_spec. rewrite Hb. reflexivity.
+  Qed.
+
+  Lemma rows_spec_stop i off frs bs be :
+    o_before o = Some (bs, be) -> be <= off -> rows_spec i off frs = [].
+  Proof.
+    intros Hb. revert i off. induction frs as [|f tl IH]; intros i off Hs; cbn [rows_spec]; [reflexivity|].
+    rewrite IH by lia. unfold t_spec. rewrite Hb. replace (N.to_nat (be - off) - _)%nat with 0%nat by lia.
+    rewrite winT_zero. reflexivity.
+  Qed.
+
+  (* ---- the to_read of a fragment *)
+  Lemma to_read_spec f off :
+    wf_frag f -> off + frag_rows f < two64 ->
+    exists tr off',
+      (match o_before o with
+       | Some rb =>
+           do range_end <- cadd off (if o_with_deleted o then f_phys f else f_logical f);
+           do t <- trim_ranges (full_frag_range (f_phys f) (f_dv f)) (off, range_end) rb;
+           Ok (t, range_end)
+       | None => Ok (full_frag_range (f_phys f) (f_dv f), off)
+       end) = Ok (tr, off')
+      /\ flatten tr = t_spec off f /\ sorted_in 0 (f_phys f) tr
+      /\ (match o_before o with Some _ => off' = off + frag_rows f | None => off' = off end).
+  Proof.
+    intros (Hd & Hr & Hp & _) Ho. destruct (full_frag_range_spec (f_phys f) (f_dv f) Hd) as [F S].
+    unfold t_spec. destruct (o_before o) as [[bs be]|].
+    - fold (frag_rows f). rewrite cadd_ok by exact Ho. cbn [obind].
+      destruct (trim_ranges_spec _ 0 (f_phys f) off (off + frag_rows f) bs be S Hp) as (tr & E & Ft & St).
+      { lia. } { rewrite F. fold (live f). lia. }
+      rewrite E. cbn [obind]. exists tr, (off + frag_rows f). rewrite Ft, F. auto.
+    - exists (full_frag_range (f_phys f) (f_dv f)), off. auto.
+  Qed.
+
+  Lemma t_spec_live off f x : In x (t_spec off f) -> In x (live f).
+  Proof.
+    unfold t_spec. destruct (o_before o) as [[bs be]|]; [|tauto]. unfold winT. intros H.
+    apply in_firstn_in in H. apply in_skipn_in in H. exact H.
+  Qed.
+
+  Definition planned_of (f : frag) (e : option ranges) (pushed : bool) : planned :=
+    match e with Some ((_ :: _) as rs) => Some (rs, choose_filter o f pushed) | _ => None end.
+  Definition exec_one (i : nat) (p : planned) : list row :=
+    match p with
+    | None => []
+    | Some (rs, w) => map (pair i) (filter (filter_of o refine_p full_p w i) (flatten rs))
+    end.
+
+  Lemma exec_frags_cons i p pl :
+    exec_frags o refine_p full_p i (p :: pl) = exec_one i p ++ exec_frags o refine_p full_p (S i) pl.
+  Proof. destruct p as [[rs w]|]; reflexivity. Qed.
+
+  Lemma exec_one_planned i f e pushed :
+    exec_one i (planned_of f e pushed) =
+    map (pair i) (filter (filter_of o refine_p full_p (choose_filter o f pushed) i)
+                         (flatten (match e with Some rs => rs | None => [] end))).
+  Proof. destruct e as [[|r rs]|]; unfold planned_of, exec_one; reflexivity. Qed.
+
+  Lemma filter_of_refine i : filter_of o refine_p full_p FRefine i = refine_eff i.
+  Proof. unfold filter_of, refine_eff. destruct (o_has_refine o); reflexivity. Qed.
+
+  (* ---- apply_index_to_fragment *)
+  Lemma existsb_false {A} (p : A -> bool) l : existsb p l = false <-> forall x, In x l -> p x = false.
+  Proof.
+    induction l as [|a l IH]; cbn [existsb In]; [tauto|]. rewrite orb_false_iff, IH.
+    split; [intros [H1 H2] x [->|Hx]; auto | intros H; split; auto].
+  Qed.
+
+  Lemma filter_true {A} (l : list A) : filter (fun _ => true) l = l.
+  Proof. induction l as [|a l IH]; cbn [filter]; congruence. Qed.
+
+  Lemma acc_eq a tr lo hi i :
+    sorted_in lo hi a -> incr (flatten tr) ->
+    (forall x, In x (flatten a) -> In x (flatten tr) /\ full_p i x = true) ->
+    existsb (fun off => full_p i off && negb (in_ranges off a)) (flatten tr) = false ->
+    flatten a = filter (full_p i) (flatten tr).
+  Proof.
+    intros Sa It Hin Hu. rewrite existsb_false in Hu. apply incr_ext.
+    - eapply incr_flatten; eauto.
+    - apply incr_filter; exact It.
+    - intros x. rewrite filter_In. split; [apply Hin|]. intros [H1 H2]. specialize (Hu x H1).
+      rewrite H2 in Hu. cbn [andb] in Hu. apply negb_false_iff in Hu. apply in_flatten. exact Hu.
+  Qed.
+
+  Definition push_props (i : nat) (f : frag) (tr : ranges) (w : which_filter) (push_e : option ranges) (sk tk sk' tk' : N) : Prop :=
+    let c := flatten (accounted o f tr) in
+    let pe := match push_e with Some rs => rs | None => [] end in
+    flatten pe = winT (N.to_nat sk) (N.to_nat tk) c
+    /\ tk' = tk - lenN (flatten pe)
+    /\ (tk <> 0 -> sk' = sk - lenN c)
+    /\ (o_has_refine o = false -> has_unaccounted o full_p i f tr = false ->
+        c = filter (full_p i) (flatten tr)
+        /\ filter (filter_of o refine_p full_p w i) (flatten pe) = flatten pe).
+
+  Lemma push_props_none i f tr w sk tk :
+    accounted o f tr = [] -> push_props i f tr w None sk tk sk tk.
+  Proof.
+    intros Ha. unfold push_props, has_unaccounted. rewrite Ha. cbn [flatten flat_map]. rewrite winT_nil.
+    unfold lenN. cbn [length]. split; [reflexivity|]. split; [lia|]. split; [intros; lia|].
+    intros _ Hu. split; [|reflexivity]. symmetry. apply filter_nil_iff.
+    rewrite existsb_false in Hu. intros x Hx. specialize (Hu x Hx). cbn [in_ranges existsb negb] in Hu.
+    rewrite andb_true_r in Hu. exact Hu.
+  Qed.
+
+  Lemma push_props_some i f tr m sk tk :
+    f_matched f = Some m -> (o_index o = Some Exact \/ o_index o = Some AtLeast) ->
+    (exists lo hi, sorted_in lo hi m) -> f_phys f < two64 -> sorted_in 0 (f_phys f) tr ->
+    (forall x, In x (flatten tr) -> in_ranges x m = true -> o_has_refine o = false -> full_p i x = true) ->
+    exists pushed sk' tk',
+      apply_skip_take (intersect_ranges tr m) sk tk = Ok (pushed, sk', tk')
+      /\ push_props i f tr FRefine (Some pushed) sk tk sk' tk'.
+  Proof.
+    intros Em Ek (lo & hi & Sm) Hp St Hfull.
+    destruct (intersect_spec tr m _ _ _ _ St Sm) as [Fi Si].
+    destruct (apply_skip_take_spec _ _ _ sk tk Si Hp) as (pushed & sk' & tk' & E & Fp & Sp & Etk & Esk).
+    exists pushed, sk', tk'. split; [exact E|]. unfold push_props, has_unaccounted.
+    assert (Ea : accounted o f tr = intersect_ranges tr m).
+    { unfold accounted. rewrite Em. destruct Ek as [-> | ->]; reflexivity. }
+    rewrite Ea. split; [exact Fp|]. split; [exact Etk|]. split; [exact Esk|]. intros Hr0 Hu. split.
+    - eapply acc_eq; eauto; [eapply incr_flatten; eauto|]. intros x Hx. rewrite Fi in Hx. apply filter_In in Hx as [H1 H2].
+      split; [exact H1 | apply Hfull; auto].
+    - rewrite filter_of_refine. unfold refine_eff. rewrite Hr0. apply filter_true.
+  Qed.
+
+  Lemma apply_index_spec i f tr off sk tk :
+    wf_frag f -> guarantee i f -> flatten tr = t_spec off f -> sorted_in 0 (f_phys f) tr ->
+    exists full_e push_e sk' tk',
+      apply_index_to_fragment o f tr sk tk = Ok (full_e, push_e, sk', tk')
+      /\ filter (filter_of o refine_p full_p (choose_filter o f false) i) (flatten full_e)
+         = filter (full_p i) (flatten tr)
+      /\ push_props i f tr (choose_filter o f true) push_e sk tk sk' tk'.
+  Proof.
+    intros (Hd & Hr & Hp & Hm) G Ft St.
+    assert (Hlive : forall x, In x (flatten tr) -> In x (live f)).
+    { intros x Hx. rewrite Ft in Hx. eapply t_spec_live; eauto. }
+    unfold apply_index_to_fragment, choose_filter, guarantee in *.
+    destruct (o_index o) as [k|] eqn:Ek.
+    2:{ exists tr, None, sk, tk. split; [reflexivity|]. split; [reflexivity|]. apply push_props_none.
+        unfold accounted. rewrite Ek. reflexivity. }
+    destruct (f_matched f) as [m|] eqn:Em.
+    2:{ exists tr, None, sk, tk. split; [destruct k; reflexivity|]. split; [destruct k; reflexivity|]. apply push_props_none.
+        unfold accounted. rewrite Ek, Em. destruct k; reflexivity. }
+    destruct Hm as (lo & hi & Sm).
+    destruct (intersect_spec tr m _ _ _ _ St Sm) as [Fi Si].
+    destruct k.
+    - (* Exact *)
+      destruct (push_props_some i f tr m sk tk Em (or_introl Ek)) as (pushed & sk' & tk' & E & PP); eauto.
+      { intros x Hx Hin Hr0. destruct (G x (Hlive x Hx)) as [G1 G2]. rewrite G1, <- G2, Hin.
+        unfold refine_eff. rewrite Hr0. reflexivity. }
+      rewrite E. cbn [obind]. exists (intersect_ranges tr m), (Some pushed), sk', tk'.
+      split; [reflexivity|]. split; [|exact PP].
+      rewrite Fi, filter_filter, filter_of_refine. apply filter_ext_in. intros x Hx.
+      destruct (G x (Hlive x Hx)) as [G1 G2]. rewrite G1, G2. reflexivity.
+    - (* AtMost *)
+      exists (intersect_ranges tr m), None, sk, tk. split; [reflexivity|]. split.
+      + rewrite Fi, filter_filter. apply filter_ext_in. intros x Hx.
+        destruct (G x (Hlive x Hx)) as [G1 G2]. cbn [filter_of]. rewrite G1.
+        destruct (indexed_p i x) eqn:Ei; [rewrite G2 by reflexivity; reflexivity | cbn [andb]; apply andb_false_r].
+      + apply push_props_none. unfold accounted. rewrite Ek. reflexivity.
+    - (* AtLeast *)
+      destruct (push_props_some i f tr m sk tk Em (or_intror Ek)) as (pushed & sk' & tk' & E & PP); eauto.
+      { intros x Hx Hin Hr0. destruct (G x (Hlive x Hx)) as [G1 G2]. rewrite G1, G2 by exact Hin.
+        unfold refine_eff. rewrite Hr0. reflexivity. }
+      rewrite E. cbn [obind]. exists tr, (Some pushed), sk', tk'.
+      split; [reflexivity|]. split; [reflexivity | exact PP].
+  Qed.
+  (* ---- the first loop of plan_scan *)
+  Definition planneds (frs : list frag) (es : list (option ranges)) (pushed : bool) : list planned :=
+    map (fun fe : frag * option ranges => planned_of (fst fe) (snd fe) pushed) (combine frs es).
+
+  Lemma planneds_cons f tl e es b : planneds (f :: tl) (e :: es) b = planned_of f e b :: planneds tl es b.
+  Proof. reflexivity. Qed.
+
+  Lemma exec_nones i frs b : exec_frags o refine_p full_p i (planneds frs (nones (length frs)) b) = [].
+  Proof.
+    revert i; induction frs as [|f tl IH]; intros i; [reflexivity|].
+    cbn [length nones repeat]. change (None :: repeat None (length tl)) with (@None ranges :: nones (length tl)).
+    rewrite planneds_cons, exec_frags_cons. cbn [planned_of exec_one app]. apply IH.
+  Qed.
+
+  Lemma nones_length {A} n : length (@nones A n) = n.
+  Proof. apply repeat_length. Qed.
+
+  Lemma any_unaccounted_nones i frs : any_unaccounted o full_p i frs (nones (length frs)) = false.
+  Proof. revert i; induction frs as [|f tl IH]; intros i; [reflexivity|]. cbn [length nones repeat any_unaccounted orb]. apply IH. Qed.
+
+  Lemma rows_spec_off i off off2 frs : o_before o = None -> rows_spec i off frs = rows_spec i off2 frs.
+  Proof. intros H. rewrite !rows_spec_nobefore by exact H. reflexivity. Qed.
+
+  Lemma filter_fullr_cons i l r :
+    filter fullr (map (pair i) l ++ r) = map (pair i) (filter (full_p i) l) ++ filter fullr r.
+  Proof. rewrite filter_app. f_equal. apply (filter_map_pair i full_p). Qed.
+
+  Definition loop_ok (i : nat) (frs : list frag) (sk tk off : N) (r : loop_res) : Prop :=
+    let '(p, fu, pu, gh) := r in
+    length fu = length frs /\ length pu = length frs /\ length gh = length frs
+    /\ (p = false ->
+        exec_frags o refine_p full_p i (planneds frs fu false) = filter fullr (rows_spec i off frs))
+    /\ (p = true ->
+        o_has_refine o = false
+        /\ (tk = 0 \/ any_unaccounted o full_p i frs gh = false ->
+            exec_frags o refine_p full_p i (planneds frs pu true)
+            = winT (N.to_nat sk) (N.to_nat tk) (filter fullr (rows_spec i off frs)))).
+
+  Lemma plan_loop_spec frs : forall i sk tk off,
+    wf_frags i frs -> off + total_rows frs < two64 ->
+    exists r, plan_loop o frs sk tk off = Ok r /\ loop_ok i frs sk tk off r.
+  Proof.
+    induction frs as [|f tl IH]; intros i sk tk off Hw Ho.
+    - exists (false, [], [], []). split; [reflexivity|]. cbn. repeat split; auto; discriminate.
+    - cbn [wf_frags] in Hw. destruct Hw as (Hwf & Hg & Hwtl). cbn [total_rows] in Ho.
+      assert (Hrows : frag_rows f = lenN (live f)) by apply Hwf.
+      destruct (to_read_spec f off Hwf) as (tr & off' & Etr & Ftr & Str & Eoff); [lia|].
+      cbn [plan_loop].
+      destruct (match o_before o with Some (_, be) => be <=? off | None => false end) eqn:Estop.
+      { (* past the end of the before-filter range *)
+        destruct (o_before o) as [[bs be]|] eqn:Hb; [|discriminate]. apply N.leb_le in Estop.
+        eexists. split; [reflexivity|]. unfold loop_ok. rewrite !nones_length.
+        split; [reflexivity|]. split; [reflexivity|]. split; [reflexivity|]. split; [|discriminate].
+        intros _. rewrite exec_nones. rewrite (rows_spec_stop i off (f :: tl) bs be Hb Estop). reflexivity. }
+      rewrite Etr. cbn [obind].
+      assert (Hoff' : off' + total_rows tl < two64).
+      { destruct (o_before o); subst off'; lia. }
+      assert (Hrs : rows_spec (S i) (off + frag_rows f) tl = rows_spec (S i) off' tl).
+      { destruct (o_before o) eqn:Hb; subst off'; [reflexivity | apply rows_spec_off; exact Hb]. }
+      destruct (match o_before o with Some _ => match tr with [] => true | _ :: _ => false end | None => false end) eqn:Eskip.
+      { (* nothing of this fragment is inside the before-filter range *)
+        assert (tr = []) as -> by (destruct (o_before o); [destruct tr; [reflexivity|discriminate] | discriminate]).
+        destruct (IH (S i) sk tk off' Hwtl Hoff') as ([[[p fu] pu] gh] & E & L1 & L2 & L3 & NP & PP).
+        rewrite E. cbn [obind]. eexists. split; [reflexivity|]. unfold loop_ok.
+        cbn [length]. split; [congruence|]. split; [congruence|]. split; [congruence|].
+        rewrite !planneds_cons. cbn [rows_spec any_unaccounted orb]. rewrite !exec_frags_cons.
+        cbn [planned_of exec_one app]. rewrite <- Ftr. cbn [flatten flat_map map app]. rewrite Hrs. split; assumption. }
+      destruct (apply_index_spec i f tr off sk tk Hwf Hg Ftr Str) as (full_e & push_e & sk' & tk' & Ea & NPa & PPa).
+      rewrite Ea. cbn [obind].
+      destruct PPa as (Fpe & Etk' & Esk' & Hacc).
+      assert (Hrow : filter fullr (rows_spec i off (f :: tl))
+                     = map (pair i) (filter (full_p i) (flatten tr)) ++ filter fullr (rows_spec (S i) off' tl)).
+      { cbn [rows_spec]. rewrite filter_fullr_cons, Hrs, Ftr. reflexivity. }
+      destruct ((tk' =? 0) && negb (o_has_refine o)) eqn:Ebrk.
+      { (* limit satisfied by index-vouched rows, no refine filter: pushed-down plan *)
+        apply andb_true_iff in Ebrk as [Ez Er]. apply N.eqb_eq in Ez. apply negb_true_iff in Er.
+        eexists. split; [reflexivity|]. unfold loop_ok. cbn [length]. rewrite !nones_length.
+        split; [reflexivity|]. split; [reflexivity|]. split; [reflexivity|]. split; [discriminate|].
+        intros _. split; [exact Er|]. intros Hc.
+        rewrite planneds_cons, exec_frags_cons, exec_nones, app_nil_r, exec_one_planned.
+        rewrite Hrow.
+        destruct (N.eq_dec tk 0) as [Htk0|Htk0].
+        - subst tk. change (N.to_nat 0) with 0%nat in *. rewrite winT_zero in Fpe. rewrite winT_zero.
+          rewrite Fpe. reflexivity.
+        - destruct Hc as [Hc|Hc]; [contradiction|]. cbn [any_unaccounted] in Hc. apply orb_false_iff in Hc as [Hc _].
+          destruct (Hacc Er Hc) as [Ec Ef]. rewrite Ef, Fpe, <- Ec.
+          rewrite winT_prefix, winT_map; [reflexivity|].
+          rewrite map_length. rewrite Fpe in Etk'. unfold lenN in Etk'. rewrite winT_length in Etk'. lia. }
+      destruct (IH (S i) sk' tk' off' Hwtl Hoff') as ([[[p fu] pu] gh] & E & L1 & L2 & L3 & NP & PP).
+      rewrite E. cbn [obind]. eexists. split; [reflexivity|]. unfold loop_ok.
+      cbn [length]. split; [congruence|]. split; [congruence|]. split; [congruence|].
+      rewrite !planneds_cons, !exec_frags_cons, !exec_one_planned. rewrite Hrow. split.
+      + intros Hp. rewrite (NP Hp), NPa. reflexivity.
+      + intros Hp. destruct (PP Hp) as [Er PPe]. split; [exact Er|]. intros Hc.
+        rewrite Er in Ebrk. cbn [negb] in Ebrk. rewrite andb_true_r in Ebrk. apply N.eqb_neq in Ebrk.
+        assert (Htk0 : tk <> 0) by lia.
+        destruct Hc as [Hc|Hc]; [contradiction|]. cbn [any_unaccounted] in Hc. apply orb_false_iff in Hc as [Hc1 Hc2].
+        destruct (Hacc Er Hc1) as [Ec Ef]. rewrite Ef, Fpe, <- Ec.
+        rewrite (PPe (or_intror Hc2)). rewrite winT_app, winT_map, map_length. f_equal.
+        rewrite map_length, winT_length. rewrite (Esk' Htk0), Etk', Fpe. unfold lenN. rewrite winT_length.
+        f_equal; lia.
+  Qed.
+End PlanSound.
+(* ------------------------------------------------------------------ the whole scan *)
+Lemma filter_len_le {A} (p : A -> bool) l : (length (filter p l) <= length l)%nat.
+Proof. induction l as [|a l IH]; cbn [filter length]; [lia|]. destruct (p a); cbn [length]; lia. Qed.
+
+Section ScanSound.
+  Variable o : opts.
+  Variables refine_p full_p indexed_p : rowpred.
+
+  Definition wf_after : Prop := match o_after o with Some (s, e) => s <= e | None => True end.
+
+  Lemma rows_spec_length i off frs :
+    (forall f, In f frs -> frag_rows o f = lenN (live f)) ->
+    lenN (rows_spec o i off frs) <= total_rows o frs.
+  Proof.
+    revert i off; induction frs as [|f tl IH]; intros i off Hl; cbn [rows_spec total_rows]; [cbn; lia|].
+    specialize (IH (S i) (off + frag_rows o f) (fun g Hg => Hl g (or_intror Hg))).
+    pose proof (Hl f (or_introl eq_refl)) as E. unfold lenN in *. rewrite app_length, map_length.
+    assert (length (t_spec o off f) <= length (live f))%nat.
+    { unfold t_spec. destruct (o_before o) as [[bs be]|]; [rewrite winT_length|]; lia. }
+    clear Hl. unfold row in *. lia.
+  Qed.
+
+  Lemma wf_frags_rows i frs : wf_frags o refine_p full_p indexed_p i frs -> forall f, In f frs -> frag_rows o f = lenN (live f).
+  Proof.
+    revert i; induction frs as [|g tl IH]; intros i H f Hf; [destruct Hf|]. cbn [wf_frags] in H. destruct H as (H1 & _ & H3).
+    destruct Hf as [->|Hf]; [apply H1 | eapply IH; eauto].
+  Qed.
+
+  Lemma rows_spec_is_before_window frs :
+    (forall f, In f frs -> frag_rows o f = lenN (live f)) ->
+    rows_spec o 0 0 frs = window (o_before o) (all_rows o 0 frs).
+  Proof.
+    intros Hl. unfold window. destruct (o_before o) as [[bs be]|] eqn:Hb.
+    - rewrite (rows_spec_before o 0 0 frs bs be Hb Hl). unfold winT. rewrite !N.sub_0_r.
+      f_equal. lia.
+    - apply rows_spec_nobefore. exact Hb.
+  Qed.
+
+  Theorem plan_scan_sound frs :
+    wf_frags o refine_p full_p indexed_p 0 frs -> total_rows o frs < two64 -> wf_after ->
+    Known_C16_limit_pushdown_skips_unguaranteed_rows o full_p frs = false ->
+    run_scan o refine_p full_p frs = Ok (reference o full_p frs).
+  Proof.
+    intros Hw Ht Ha Hk. pose proof (wf_frags_rows 0 frs Hw) as Hl.
+    unfold run_scan, plan_scan, Known_C16_limit_pushdown_skips_unguaranteed_rows, trimmed_reads, wf_after in *.
+    set (sk := match o_after o with Some (s, _) => s | None => 0 end) in *.
+    assert (Etk : exists tk, (match o_after o with Some (s, e) => csub e s | None => Ok (two64 - 1) end) = Ok tk
+                  /\ tk = match o_after o with Some (s, e) => e - s | None => two64 - 1 end).
+    { destruct (o_after o) as [[s e]|]; [rewrite csub_ok by exact Ha|]; eauto. }
+    destruct Etk as (tk & Etk & Htk). rewrite Etk in *. cbn [obind] in *.
+    destruct (plan_loop_spec o refine_p full_p indexed_p frs 0 sk tk 0 Hw) as ([[[p fu] pu] gh] & E & L1 & L2 & L3 & NP & PP); [lia|].
+    rewrite E in *. cbn [obind]. f_equal. unfold exec_plan, reference. cbn [fst snd].
+    rewrite <- (rows_spec_is_before_window frs Hl).
+    change (filter (fun r : row => full_p (fst r) (snd r))) with (filter (fullr full_p)).
+    destruct p.
+    - destruct (PP eq_refl) as [Er PPe].
+      change (exec_frags o refine_p full_p 0 (planneds o frs pu true)
+              = window (o_after o) (filter (fullr full_p) (rows_spec o 0 0 frs))).
+      rewrite PPe.
+      + unfold window, winT. subst sk. destruct (o_after o) as [[s e]|]; [subst tk; reflexivity|].
+        cbn [N.to_nat skipn]. apply firstn_all2. subst tk.
+        pose proof (rows_spec_length 0 0 frs Hl) as Hlen. unfold lenN in Hlen.
+        pose proof (filter_len_le (fullr full_p) (rows_spec o 0 0 frs)). unfold row in *. lia.
+      + apply andb_false_iff in Hk as [Hk|Hk]; [left | right; exact Hk].
+        destruct (o_after o) as [[s e]|]; [|discriminate]. apply N.ltb_ge in Hk. lia.
+    - change (window (o_after o) (exec_frags o refine_p full_p 0 (planneds o frs fu false))
+              = window (o_after o) (filter (fullr full_p) (rows_spec o 0 0 frs))).
+      rewrite (NP eq_refl). reflexivity.
+  Qed.
+End ScanSound.
+
+(* ------------------------------------------------------------------ knob independence *)
+Section Knobs.
+  Context {A : Type}.
+
+  (* filtering batch by batch = filtering the table, for ANY split of the rows into batches *)
+  Lemma filter_concat (p : A -> bool) (parts : list (list A)) :
+    concat (map (filter p) parts) = filter p (concat parts).
+  Proof. induction parts as [|b tl IH]; cbn [map concat]; [reflexivity|]. rewrite filter_app, IH. reflexivity. Qed.
+
+  Fixpoint chunks_fuel (fuel n : nat) (l : list A) : list (list A) :=
+    match fuel with
+    | O => []
+    | S k => match l with [] => [] | _ :: _ => firstn n l :: chunks_fuel k n (skipn n l) end
+    end.
+  Definition chunks (n : nat) (l : list A) : list (list A) := chunks_fuel (length l) n l.
+
+  Lemma concat_chunks_fuel n fuel : forall l, (length l <= fuel)%nat -> concat (chunks_fuel fuel (S n) l) = l.
+  Proof.
+    induction fuel as [|k IH]; intros l H.
+    - destruct l; [reflexivity | cbn in H; lia].
+    - cbn [chunks_fuel]. destruct l as [|a l]; [reflexivity|]. cbn [concat]. rewrite IH.
+      + apply firstn_skipn.
+      + rewrite skipn_length. cbn [length] in *. lia.
+  Qed.
+  Lemma concat_chunks n l : concat (chunks (S n) l) = l.
+  Proof. apply concat_chunks_fuel. apply Nat.le_refl. Qed.
+
+  (* OFFSET/LIMIT applied part by part with running counters = OFFSET/LIMIT of the whole *)
+  Fixpoint win_parts (sk tk : nat) (parts : list (list A)) : list (list A) :=
+    match parts with
+    | [] => []
+    | b :: tl => winT sk tk b :: win_parts (sk - length b) (tk - length (winT sk tk b)) tl
+    end.
+  Lemma concat_win_parts parts : forall sk tk, concat (win_parts sk tk parts) = winT sk tk (concat parts).
+  Proof.
+    induction parts as [|b tl IH]; intros sk tk; cbn [win_parts concat]; [rewrite winT_nil; reflexivity|].
+    rewrite IH, winT_app. reflexivity.
+  Qed.
+
+  (* apply_hard_range over any batch sequence *)
+  Lemma hard_range_spec s e batches : forall seen,
+    concat (hard_range batches seen s e)
+    = winT (N.to_nat (s - seen)) (N.to_nat (e - seen) - N.to_nat (s - seen)) (@concat A batches).
+  Proof.
+    induction batches as [|b tl IH]; intros seen; cbn [hard_range concat]; [rewrite winT_nil; reflexivity|].
+    destruct (N.ltb_spec e seen) as [H1|H1].
+    { replace (N.to_nat (e - seen) - N.to_nat (s - seen))%nat with 0%nat by lia. reflexivity. }
+    destruct (N.eqb_spec (N.of_nat (length b)) 0) as [H2|H2].
+    { destruct b; [|cbn [length] in H2; lia]. cbn [app]. apply IH. }
+    rewrite winT_app.
+    assert (Erest : concat (hard_range tl (seen + N.of_nat (length b)) s e)
+                    = winT (N.to_nat (s - seen) - length b)
+                        (N.to_nat (e - seen) - N.to_nat (s - seen)
+                         - length (winT (N.to_nat (s - seen)) (N.to_nat (e - seen) - N.to_nat (s - seen)) b)) (concat tl)).
+    { rewrite (IH (seen + N.of_nat (length b))). rewrite winT_length. f_equal; lia. }
+    clear IH.
+    assert (Hnil : forall l : list A, length l = 0%nat -> l = []) by (intros l; destruct l; [reflexivity | discriminate]).
+    destruct ((seen + N.of_nat (length b) <=? s) || (e <=? seen)) eqn:H3.
+    { rewrite Erest. rewrite (Hnil (winT _ _ b)); [reflexivity|]. rewrite winT_length.
+      apply orb_true_iff in H3 as [H3|H3]; [apply N.leb_le in H3 | apply N.leb_le in H3]; lia. }
+    apply orb_false_iff in H3 as [H3 H4]. apply N.leb_gt in H3, H4. unfold ssub.
+    destruct (N.eqb_spec (N.min (e - seen) (N.of_nat (length b)) - (s - seen)) 0) as [H5|H5].
+    { rewrite Erest. rewrite (Hnil (winT _ _ b)); [reflexivity|]. rewrite winT_length. lia. }
+    cbn [concat]. rewrite Erest. f_equal. change (firstn ?t (skipn ?k b)) with (winT k t b).
+    apply winT_eq_take. lia.
+  Qed.
+End Knobs.
+
+(* ------------------------------------------------------------------ safe_coerce_scalar on integers *)
+Lemma coerce_int_sound src dst v :
+  in_ity src v = true ->
+  match coerce_int src (Some v) dst with
+  | Some (Some v') => v' = v /\ in_ity dst v = true
+  | Some None => False
+  | None => in_ity dst v = false
+  end.
+Proof.
+  intros H. unfold coerce_int. destruct (ity_eqb src dst) eqn:E.
+  - split; [reflexivity|]. destruct src, dst; try discriminate; exact H.
+  - destruct (widens src dst) eqn:W.
+    + split; [reflexivity|]. unfold widens, in_ity in *. lia.
+    + destruct (in_ity dst v); auto.
+Qed.
